@@ -22,7 +22,9 @@ detail of every P-FAIL / T-FAIL to <file>.
 import json
 import os
 import subprocess
+import threading
 import time
+from concurrent.futures import ThreadPoolExecutor
 
 from common import NCPU, MachineryFailure
 
@@ -65,31 +67,70 @@ def _tab_leaves(ck):
     return leaves, dc
 
 
-def _validate(ck, cases, obs, mode, common):
-    """TLC evaluates P and T on the observations (chunks; each chunk striped over TLC's workers)."""
+_PMAP_LOCK = threading.Lock()
+
+
+def _pmap(ck, *a, **kw):
+    """ck.pmap numbers its scratch files with a counter: one replay at a time (TLC runs overlap with it)."""
+    with _PMAP_LOCK:
+        return ck.pmap(*a, **kw)
+
+
+def _chunks(cases, obs, size):
+    """split into chunks of about `size` observations; the phases of one history stay together."""
+    out, cur_c, cur_o = [], [], []
+    for c, o in zip(cases, obs):
+        if len(cur_o) >= size and not (o.get("hist") and o.get("ph", 0) > 0):
+            out.append((cur_c, cur_o))
+            cur_c, cur_o = [], []
+        cur_c.append(c)
+        cur_o.append(o)
+    if cur_o:
+        out.append((cur_c, cur_o))
+    return out
+
+
+def _tlc_trace(ck, part, mode, n, workers):
+    """one TLC trace-validation run (called from worker threads); returns the parsed records."""
+    cfg_name = f"Trace_C05_run_{workers}"
+    path = ck.write_json(f"obs_{mode}_{n}.json", part)
+    res = ck.tlc("Trace_C05", cfg_name, env={"OBS": path}, workers=workers, coverage=False,
+                 label=f"trace validation {mode} chunk {n} ({len(part)} observations)", timeout=2400)
+    os.unlink(path)
+    if res.distinct != len(part) + workers:
+        raise MachineryFailure(f"trace validation consumed {res.distinct - workers} of {len(part)} observations")
+    if res.by_tag("SHAPE"):
+        raise MachineryFailure("observation does not have the shape of its program: " + str(res.by_tag("SHAPE")[0]))
+    return res
+
+
+def _submit_validation(ck, pool, cases, obs, mode, common, jobs):
+    """queue the trace validation of (cases, obs) as parallel TLC runs; verdicts are drawn later, in order."""
     bad = [o for o in obs if "_error" in o]
     if bad:
         raise MachineryFailure("replay error: " + json.dumps(bad[0])[:800])
-    stripes = max(1, min(NCPU, 16))
-    cfg = open(ck.spec + "/Trace_C05.cfg").read().replace("Stripes = 8", f"Stripes = {stripes}")
-    open(ck.spec + "/Trace_C05_run.cfg", "w").write(cfg)
-    CH = 8000
+    workers = max(1, min(4, NCPU))
+    cfg = open(ck.spec + "/Trace_C05.cfg").read().replace("Stripes = 8", f"Stripes = {workers}")
+    open(ck.spec + f"/Trace_C05_run_{workers}.cfg", "w").write(cfg)
+    size = max(400, min(3000, len(obs) // max(1, NCPU // workers) + 1))
+    for n, (cc, oo) in enumerate(_chunks(cases, obs, size)):
+        jobs.append((mode, common, cc, oo, pool.submit(_tlc_trace, ck, oo, mode, n, workers)))
+
+
+def _edits_str(c):
+    return [f"{e['k']} {e['sym']} lg={e['lg']} dim={e['d']}" for e in c.get("edits", [])]
+
+
+def _draw_verdicts(ck, jobs):
+    """main thread, submission order: turn TLC's P-FAIL / T-FAIL records into verdicts."""
     nontrivial = 0
-    for off in range(0, len(obs), CH):
-        part = obs[off : off + CH]
-        path = ck.write_json(f"obs_{mode}_{off}.json", part)
-        res = ck.tlc("Trace_C05", "Trace_C05_run", env={"OBS": path}, workers=stripes, coverage=False,
-                     label=f"trace validation {mode} [{off}:{off + len(part)}]", timeout=2400)
-        os.unlink(path)
-        if res.distinct != len(part) + stripes:
-            raise MachineryFailure(f"trace validation consumed {res.distinct - stripes} of {len(part)} observations")
-        if res.by_tag("SHAPE"):
-            raise MachineryFailure("observation does not have the shape of its program: " + str(res.by_tag("SHAPE")[0]))
+    for mode, common, cases, part, fut in jobs:
+        res = fut.result()
         ck.validated(len(part))
         ck.cov["out_of_float_range"] = ck.cov.get("out_of_float_range", 0) + len(res.by_tag("RANGE"))
         for r in sorted(res.by_tag("T-FAIL"), key=lambda r: (r["idx"], r["what"], r["at"])):
             o = part[r["idx"] - 1]
-            c = cases[off + r["idx"] - 1]
+            c = cases[r["idx"] - 1]
             cls = f"{mode}:{o['law']}:{r['what']}:{_where(c, o, r['what'], r['at'])['op']}"
             _DRIFT_SEEN[cls] = _DRIFT_SEEN.get(cls, 0) + 1
             ck.drift_step(cls, _detail(c, o, r["what"], r["at"]) if _DRIFT_SEEN[cls] <= 2 else None)
@@ -98,17 +139,20 @@ def _validate(ck, cases, obs, mode, common):
                     f.write(json.dumps({"T": cls, "d": _detail(c, o, r["what"], r["at"])}) + "\n")
         for r in sorted(res.by_tag("P-FAIL"), key=lambda r: (r["idx"], r["clause"], r["at"])):
             o = part[r["idx"] - 1]
-            c = cases[off + r["idx"] - 1]
-            what = "pair" if r["clause"] in ("Law", "Eq", "Hash") else "step"
+            c = cases[r["idx"] - 1]
+            what = "pair" if r["clause"] in ("Law", "Eq", "Hash") else "leaf" if r["clause"] == "Current" else "reg" if r["clause"] == "State" else "step"
             w = _where(c, o, what, r["at"])
             key = {"clause": r["clause"], "law": o["law"], "op": w["op"], "mode": mode, "units": w["units"], "exps": w["exps"]}
+            if o.get("hist"):
+                key["edits"] = _edits_str(c)
+                key["phase"] = o["ph"]
             ck.violation(key, _detail(c, o, what, r["at"]), case={"mode": mode, "case": c, "common": common})
             if os.environ.get("C05_DEBUG"):
                 with open(os.environ["C05_DEBUG"], "a") as f:
                     f.write(json.dumps({"P": key, "d": _detail(c, o, what, r["at"])}) + "\n")
-    for o in obs:
-        if any(k["kind"] != "probe" and o["regs"][k["i"] - 1]["k"] == "unit" and o["regs"][k["j"] - 1]["k"] == "unit" for k in _pairs_of(o)):
-            nontrivial += 1
+        for o in part:
+            if any(k["kind"] != "probe" and o["regs"][k["i"] - 1]["k"] == "unit" and o["regs"][k["j"] - 1]["k"] == "unit" for k in _pairs_of(o)):
+                nontrivial += 1
     return nontrivial
 
 
@@ -136,11 +180,14 @@ def _where(c, o, what, at):
         pr = c["pairs"][at - 1]
         op = f"pair{pr['i']}-{pr['j']}"
         exps = []
+    elif what == "reg":
+        op = "reg" + str(at) + ("" if at <= 4 else ":" + c["prog"][at - 5]["op"])
+        exps = []
     else:
         op = "leaf"
         exps = []
         used = [names[at - 1]] if at <= 3 else ["1"]
-    if o["law"] in ("powpow", "powadd", "powmul", "simp"):
+    if o["law"] in ("powpow", "powadd", "powmul", "simp", "state"):
         exps = [_estr(c["p"])] + ([_estr(c["q"])] if o["law"] in ("powpow", "powadd") else [])
     return {"op": op, "units": used, "exps": exps}
 
@@ -165,8 +212,15 @@ def _detail(c, o, what, at):
         d["a"] = _short(o["regs"][pr["i"] - 1])
         d["b"] = _short(o["regs"][pr["j"] - 1])
         d["observed"] = o["pairs"][at - 1]
+    elif what == "reg":
+        d["register"] = _short(o["regs"][at - 1])
+        d["hash_class"] = o["hc"][at - 1]
     else:
         d["leaf"] = _short(o["regs"][at - 1])
+    if o.get("hist"):
+        d["edits"] = _edits_str(c)
+        d["phase"] = o["ph"]
+        d["table_rows_read_back"] = {"atoms": o["atoms"], "lg": o["alg"]}
     return d
 
 
@@ -183,7 +237,7 @@ def _mc(ck, mode, consts, env=None, label=""):
     res = ck.tlc("MC_C05", name, env=env, workers=NCPU, label=label, coverage=False, timeout=3000)  # -coverage makes TLC run out of memory on the recursive operators
     cases = res.by_tag("CASE")
     # several workers print concurrently: fix the order
-    cases.sort(key=lambda r: json.dumps([r["law"], r["lv"], r["p"], r["q"]], sort_keys=True))
+    cases.sort(key=lambda r: json.dumps([r["law"], r["lv"], r["p"], r["q"], r.get("edits", [])], sort_keys=True))
     for r in cases:
         _PAIRS.setdefault(r["law"], r["pairs"])
     return res, cases
@@ -196,13 +250,56 @@ def _bylaw(cases):
     return d
 
 
+def _flatten(cases, obs):
+    """histories come back as {"phases": [...]}: one observation per phase, the case repeated."""
+    cc, oo = [], []
+    for c, o in zip(cases, obs):
+        if isinstance(o, dict) and "phases" in o:
+            for ph in o["phases"]:
+                cc.append(c)
+                oo.append(ph)
+        else:
+            cc.append(c)
+            oo.append(o)
+    return cc, oo
+
+
+def _tab_cases(ck, seed):
+    """TAB pass up to the exported cases (runs in a worker thread)."""
+    leaves, dc = _tab_leaves(ck)
+    probe = _pmap(ck, "impl_c05", "probe_leaves", [leaves], nproc=1, common={"mode": "TAB", "tab": leaves})[0]
+    if "_error" in probe:
+        raise MachineryFailure("leaf probe failed: " + str(probe))
+    uncovered = []
+    if probe["unknown_bases"]:
+        uncovered.append({"base dimensions outside the 8 modelled": probe["unknown_bases"]})
+    kept = []
+    for l, p in zip(leaves, probe["leaves"]):
+        if p["ok"]:
+            l["dc"] = dc(json.dumps(p["dim"]))
+            kept.append(l)
+        else:
+            uncovered.append({"leaf does not resolve": l["s"], "why": p["why"]})
+    leaves = kept
+    tabpath = ck.write_json("tab.json", [{"dc": l["dc"]} for l in leaves])
+    consts = ck.q(
+        {"Seed": seed, "PairN": 8, "TripleN": 3, "PowN": 3, "PowMulN": 3, "SimpN": 3, "RuleN": 5, "HistN": 0},
+        {"Seed": seed, "PairN": 0, "TripleN": 60, "PowN": 40, "PowMulN": 60, "SimpN": 40, "RuleN": 40, "HistN": 0},
+    )
+    res, tcases = _mc(ck, "TAB", consts, env={"TAB": tabpath}, label=f"TAB instance over {len(leaves)} table leaves {consts}: tuple enumeration")
+    if len(tcases) < 500:
+        raise MachineryFailure("TAB instance: too few cases")
+    return leaves, tcases, consts, uncovered
+
+
 def run(ck):
     ck.level = "model_checking"
     ck.assumptions += [
-        "MR pass: 18 model atoms with scales 2**k (k integer), three real registries (two in the same state); scales well separated, so math.isclose in Unit.__eq__ never decides",
+        "MR pass: 18 model atoms with scales 2**k (k integer), four real registries (two in the same state, one edited by the histories); scales well separated, so math.isclose in Unit.__eq__ never decides",
         "exponents: 22 values for p (int, Fraction, sympy Rational, float, two-decimal float), 8 for q; at most one two-decimal exponent per case (32-bit integers in TLC)",
-        "TAB pass: float scales never enter TLC; the harness measures relative deviations against 40-digit references (unit 1e-16) and TLC bounds them (one operation 2e-14, law 1e-11, 'different' 4e-9)",
-        "C05_Sync (expression denotes (scale, dimension)) is evaluated only when all leaves of the case live in one registry",
+        "registry histories (law 'state'): one or two edits (modify / add over / remove+add, also with another dimension, also back to the original row) of 8 offset-free symbols of one long-lived registry object; the same 17-instruction program runs in every phase on terms re-built from their strings; only re-built terms are compared (what a unit created before an edit keeps is C12's statement)",
+        "TAB pass: float scales never enter TLC; the harness measures relative deviations against 40-digit references (unit 1e-16) and TLC bounds them (one operation 2e-14 + 4e-16 x |ln scale| for powers, law 1e-11, 'different' 4e-9)",
+        "C05_Sync (expression denotes (scale, dimension)) is evaluated only when all leaves of the case live in one registry and have positive scale",
         "raising operations (offset and logarithmic guards) are outside the laws: a law instance is evaluated when both sides returned",
     ]
     if ck.replay:
@@ -216,73 +313,88 @@ def run(ck):
             return
         _PAIRS[rc["case"]["law"]] = rc["case"]["pairs"]
         obs = ck.pmap("impl_c05", "observe", [rc["case"]], nproc=1, common=rc["common"])
-        _validate(ck, [rc["case"]], obs, rc["mode"], rc["common"])
+        cc, oo = _flatten([rc["case"]], obs)
+        jobs = []
+        with ThreadPoolExecutor(max_workers=1) as pool:
+            _submit_validation(ck, pool, cc, oo, rc["mode"], rc["common"], jobs)
+            _draw_verdicts(ck, jobs)
         return
 
-    seed = ck.seed % 1000
-    # ---- MR pass ----
-    consts = ck.q(
-        {"Seed": seed, "PairN": 0, "TripleN": 30, "PowN": 40, "PowMulN": 40, "SimpN": 24, "RuleN": 0},
-        {"Seed": seed, "PairN": 0, "TripleN": 0, "PowN": 0, "PowMulN": 0, "SimpN": 400, "RuleN": 0},
-    )
-    res, cases = _mc(ck, "MR", consts, label=f"MR instance {consts}: model run + ModelHolds + export")
-    mr = res.by_tag("MR")
-    if len(mr) != 1 or len(cases) < 500:
-        raise MachineryFailure("MR instance: table or cases missing")
-    modelfails = [c for c in cases if c["modelfails"]]
-    ck.cov["model_level_failures"] = len(modelfails)
-    common = {"mode": "MR", "mr": mr[0]}
-    ck.sample({"mr_case": {k: cases[len(cases) // 2][k] for k in ("law", "lv", "p", "q")}})
-    obs = ck.pmap("impl_c05", "observe", cases, common=common)
-    nontrivial = _validate(ck, cases, obs, "MR", common)
-    ck.cov["mr_cases_by_law"] = _bylaw(cases)
-    n_eval = len(cases)
-
-    # ---- TAB pass ----
-    leaves, dc = _tab_leaves(ck)
-    probe = ck.pmap("impl_c05", "probe_leaves", [leaves], nproc=1, common={"mode": "TAB", "tab": leaves})[0]
-    if "_error" in probe:
-        raise MachineryFailure("leaf probe failed: " + str(probe))
-    if probe["unknown_bases"]:
-        ck.cov["uncovered"].append({"base dimensions outside the 8 modelled": probe["unknown_bases"]})
-    kept = []
-    for l, p in zip(leaves, probe["leaves"]):
-        if p["ok"]:
-            l["dc"] = dc(json.dumps(p["dim"]))
-            kept.append(l)
-        else:
-            ck.cov["uncovered"].append({"leaf does not resolve": l["s"], "why": p["why"]})
-    leaves = kept
-    tabpath = ck.write_json("tab.json", [{"dc": l["dc"]} for l in leaves])
-    consts = ck.q(
-        {"Seed": seed, "PairN": 10, "TripleN": 4, "PowN": 3, "PowMulN": 4, "SimpN": 3, "RuleN": 6},
-        {"Seed": seed, "PairN": 0, "TripleN": 60, "PowN": 40, "PowMulN": 60, "SimpN": 40, "RuleN": 40},
-    )
-    res, tcases = _mc(ck, "TAB", consts, env={"TAB": tabpath}, label=f"TAB instance over {len(leaves)} table leaves {consts}: tuple enumeration")
-    if len(tcases) < 500:
-        raise MachineryFailure("TAB instance: too few cases")
-    common = {"mode": "TAB", "tab": leaves}
-    ck.sample({"tab_case": {"law": tcases[len(tcases) // 3]["law"], "leaves": [leaves[i - 1]["s"] for i in tcases[len(tcases) // 3]["lv"]]}})
-    tobs = ck.pmap("impl_c05", "observe", tcases, common=common)
-    nontrivial += _validate(ck, tcases, tobs, "TAB", common)
-    ck.cov["tab_cases_by_law"] = _bylaw(tcases)
-    ck.cov["tab_leaves"] = {k: sum(1 for l in leaves if l["cls"] == k) for k in ("atom", "prefixed", "compound", "custom")}
-    n_eval += len(tcases)
-    ck.cov["exhaustive"] = ck.tier == "thorough"
-    ck.cov["evaluations"] = n_eval
-    ck.cov["distinct_nontrivial"] = nontrivial
-    ck.cov["rule"] = "cases in which at least one law/twin register pair has both sides returned as units (the law is actually evaluated)"
-    ck.cov["bound"] = {"MR": "all pairs of the 27 leaves; seeded samples of triples/exponent tuples per first leaf (thorough: all; simp 400 per first leaf)", "TAB": consts}
-
-    # ---- code -> spec: Unit operator events of the repository's test-suite ----
     import suite
 
-    if not os.environ.get("C05_NOSUITE"):
-        suite.check(ck, ["P04"])
+    seed = ck.seed % 1000
+    pool = ThreadPoolExecutor(max_workers=max(4, NCPU))
+    jobs = []
+    try:
+        # independent strands start at once: the traced test-suite, Apalache, the TAB instance, the MR instance
+        f_suite = None if os.environ.get("C05_NOSUITE") else pool.submit(suite.validate, ck, ["P04"])
+        f_apalache = pool.submit(_apalache, ck) if ck.tier == "thorough" else None
+        f_tab = pool.submit(_tab_cases, ck, seed)
+        consts = ck.q(
+            {"Seed": seed, "PairN": 0, "TripleN": 20, "PowN": 30, "PowMulN": 30, "SimpN": 16, "RuleN": 0, "HistN": 10},
+            {"Seed": seed, "PairN": 0, "TripleN": 0, "PowN": 0, "PowMulN": 0, "SimpN": 400, "RuleN": 0, "HistN": 120},
+        )
+        res, cases = _mc(ck, "MR", consts, label=f"MR instance {consts}: model run + ModelHolds + export (cases and registry histories)")
+        mr = res.by_tag("MR")
+        if len(mr) != 1 or len(cases) < 500:
+            raise MachineryFailure("MR instance: table or cases missing")
+        hist = [c for c in cases if c["law"] == "state"]
+        if len(hist) < 50:
+            raise MachineryFailure("MR instance: registry histories missing")
+        ck.cov["model_level_failures"] = len([c for c in cases if c["modelfails"]])
+        common = {"mode": "MR", "mr": mr[0]}
+        ck.sample({"mr_case": {k: cases[len(cases) // 2][k] for k in ("law", "lv", "p", "q")}})
+        ck.sample({"registry_history": {k: hist[len(hist) // 2][k] for k in ("lv", "p", "edits")}})
+        # histories first (they are the long poles of the replay), then the single-state cases
+        plain = [c for c in cases if c["law"] != "state"]
+        hobs = _pmap(ck, "impl_c05", "observe", hist, common=common)
+        hc, ho = _flatten(hist, hobs)
+        _submit_validation(ck, pool, hc, ho, "MR", common, jobs)
+        obs = _pmap(ck, "impl_c05", "observe", plain, common=common)
+        _submit_validation(ck, pool, plain, obs, "MR", common, jobs)
+        ck.cov["mr_cases_by_law"] = _bylaw(cases)
+        ck.cov["registry_histories"] = {"histories": len(hist), "phases": len(ho), "with_two_edits": sum(1 for c in hist if len(c["edits"]) == 2),
+                                        "back_to_an_earlier_state": sum(1 for c in hist if _returns(c))}
+        n_eval = len(plain) + len(ho)
 
-    # ---- Apalache: the linear exponent-vector laws for unbounded integers ----
-    if ck.tier == "thorough":
-        _apalache(ck)
+        leaves, tcases, tconsts, uncovered = f_tab.result()
+        ck.cov["uncovered"] += uncovered
+        tcommon = {"mode": "TAB", "tab": leaves}
+        ck.sample({"tab_case": {"law": tcases[len(tcases) // 3]["law"], "leaves": [leaves[i - 1]["s"] for i in tcases[len(tcases) // 3]["lv"]]}})
+        tobs = _pmap(ck, "impl_c05", "observe", tcases, common=tcommon)
+        _submit_validation(ck, pool, tcases, tobs, "TAB", tcommon, jobs)
+        ck.cov["tab_cases_by_law"] = _bylaw(tcases)
+        ck.cov["tab_leaves"] = {k: sum(1 for l in leaves if l["cls"] == k) for k in ("atom", "prefixed", "compound", "custom")}
+        n_eval += len(tcases)
+
+        nontrivial = _draw_verdicts(ck, jobs)
+        ck.cov["exhaustive"] = ck.tier == "thorough"
+        ck.cov["evaluations"] = n_eval
+        ck.cov["distinct_nontrivial"] = nontrivial
+        ck.cov["rule"] = "cases / history phases in which at least one law/twin register pair has both sides returned as units (the law is actually evaluated)"
+        ck.cov["bound"] = {"MR": consts, "TAB": tconsts}
+
+        # ---- code -> spec: Unit operator events of the repository's test-suite ----
+        if f_suite is not None:
+            for r, e in f_suite.result():
+                key = {"source": "suite", "pred": r["pred"], "fn": e["fn"], "method": e["method"], "exc": e["exc"]}
+                ck.violation(key, suite.brief(e), case={"suite_event": e})
+        if f_apalache is not None:
+            f_apalache.result()
+    finally:
+        pool.shutdown(wait=True, cancel_futures=True)
+
+
+def _returns(c):
+    """does the history come back to a table it had before (decided again by TLC; this is only a counter)."""
+    tab = {}
+    seen = [dict(tab)]
+    for e in c["edits"]:
+        tab[e["sym"]] = (e["lg"], e["d"] if e["k"] != "modify" else tab.get(e["sym"], (None, e["sym"]))[1])
+        seen.append(dict(tab))
+    base = {"la": 0, "lb": 10, "lc": -3, "ta": 0, "tb": 6, "ma": 0, "mb": -5, "nq": -2, "fo": 3}
+    norm = [frozenset((k, v) for k, v in t.items() if not (v[1] == k and base.get(k) == v[0])) for t in seen]
+    return len(set(norm)) < len(norm)
 
 
 def _apalache(ck):
